@@ -560,6 +560,41 @@ VH_TARGET(sv_ops, 3,
         }
         VH_CHECK(c, ns.size() == ss.size(), "unordered_set sizes differ " << ns.size() << " vs " << ss.size());
         c.tag("hash");
+        // lock-step on the collision pattern (the hash VALUES are not compared): two views hash alike on the
+        // nostd side exactly when they do with std::hash<std::string_view>.  Pairs: every two slots, and the
+        // view against close neighbours of it - one byte shorter, one NUL longer, last byte changed, first
+        // byte behind an embedded NUL changed (a hash of the length only, or of the bytes up to the first
+        // NUL, maps these to one value)
+        std::hash<std::string_view> HS;
+        const size_t hs = HS(si);
+        for (int a = 0; a < kViews; ++a)
+          for (int b = a + 1; b < kViews; ++b)
+            VH_CHECK(c, (H(w.nv[a]) == H(w.nv[b])) == (HS(w.sv[a]) == HS(w.sv[b])),
+                     "views '" << vh::show(std::string(w.sv[a])) << "' and '" << vh::show(std::string(w.sv[b]))
+                               << "': hash alike " << (H(w.nv[a]) == H(w.nv[b])) << ", std " << (HS(w.sv[a]) == HS(w.sv[b])));
+        auto neighbour = [&](const std::string &z, const char *what) {
+          Bytes nb{z};
+          bool na = H(nostd::string_view(nb.p(), nb.n)) == h, sa = HS(std::string_view(nb.p(), nb.n)) == hs;
+          VH_CHECK(c, na == sa, "'" << vh::show(std::string(si)) << "' and its neighbour (" << what << ") '" << vh::show(z)
+                                    << "': hash alike " << na << ", std " << sa);
+        };
+        const std::string cur(si);
+        neighbour(cur + std::string(1, '\0'), "one NUL longer");
+        if (!cur.empty())
+        {
+          neighbour(cur.substr(0, cur.size() - 1), "one byte shorter");
+          std::string z = cur;
+          z.back()      = static_cast<char>(z.back() ^ 0x01);
+          neighbour(z, "last byte changed");
+          size_t nul = cur.find('\0');
+          if (nul != std::string::npos && nul + 1 < cur.size())
+          {
+            std::string y = cur;
+            y[nul + 1]    = static_cast<char>(y[nul + 1] ^ 0x40);
+            neighbour(y, "byte behind the first NUL changed");
+            c.tag("hash-neighbour-differs-behind-nul");
+          }
+        }
         break;
       }
       default:
@@ -653,6 +688,14 @@ void check_subviews(vh::Case &c, vh::Reader &rd, const Sp &s, T *p, size_t n)
   (void)rd;
 }
 
+size_t take_const_span(nostd::span<const int> s, long *sum)
+{
+  *sum = 0;
+  for (int x : s)
+    *sum += x;
+  return s.size();
+}
+
 // static extent N over [p,p+N)
 template <size_t N>
 void check_static(vh::Case &c, int *p, nostd::span<int> *out)
@@ -672,6 +715,14 @@ void check_static(vh::Case &c, int *p, nostd::span<int> *out)
   check_span(c, dyn, p, N, "span<int>(span<int,N>)");
   nostd::span<const int> kdyn(k);
   check_span(c, kdyn, static_cast<const int *>(p), N, "span<const int>(span<const int,N>)");
+  nostd::span<const int> kdyn2(a);  // static -> dynamic extent and int -> const int in one conversion
+  check_span(c, kdyn2, static_cast<const int *>(p), N, "span<const int>(span<int,N>)");
+  long ssum    = 0;
+  size_t taken = take_const_span(a, &ssum);  // the same conversion for a by-value parameter
+  long msum    = 0;
+  for (size_t i = 0; i < N; ++i)
+    msum += p[i];
+  VH_CHECK(c, taken == N && ssum == msum, "span<const int> parameter from span<int,N>: " << taken << " elements sum " << ssum);
   std::vector<int> v(p, p + N);
   nostd::span<int, N> fromvec(v);
   check_span(c, fromvec, v.data(), N, "span<int,N>(vector of N)");
@@ -697,16 +748,11 @@ void check_static<0>(vh::Case &c, int *p, nostd::span<int> *out)
   check_span(c, b, p, 0, "span<int,0>(first,first)");
   nostd::span<int> dyn(a);
   check_span(c, dyn, p, 0, "span<int>(span<int,0>)");
+  nostd::span<const int> kdyn2(a);
+  check_span(c, kdyn2, static_cast<const int *>(p), 0, "span<const int>(span<int,0>)");
   *out = a;
 }
 
-size_t take_const_span(nostd::span<const int> s, long *sum)
-{
-  *sum = 0;
-  for (int x : s)
-    *sum += x;
-  return s.size();
-}
 }  // namespace
 
 VH_TARGET(span_ops, 2,
@@ -929,7 +975,25 @@ VH_TARGET(span_ops, 2,
         check_subviews(c, rd, ds[k], ms[k].p, ms[k].n);
         if (!has_first<nostd::span<int>>::value && !has_last<nostd::span<int>>::value &&
             !has_subspan<nostd::span<int>>::value)
-          c.tag("subviews-not-offered");
+        {
+          // this version of the header has no first/last/subspan: a subview is what callers build from the
+          // span's own data()/size() (and begin()/end()); that is compared with the slice model instead
+          size_t off = rd.below(static_cast<uint32_t>(ms[k].n + 1));
+          size_t cnt = rd.below(static_cast<uint32_t>(ms[k].n - off + 1));
+          nostd::span<int> sub(ds[k].data() + off, cnt);
+          check_span(c, sub, ms[k].p + off, cnt, "span(s.data()+off,count)");
+          nostd::span<int> tail(ds[k].begin() + off, ds[k].end());
+          check_span(c, tail, ms[k].p + off, ms[k].n - off, "span(s.begin()+off,s.end())");
+          nostd::span<int> whole(ds[k].data(), ds[k].size());
+          check_span(c, whole, ms[k].p, ms[k].n, "span(s.data(),s.size())");
+          d << "[" << off << "," << cnt << "]";
+          c.tag(cnt ? "subviews-not-offered:slice-built-from-data()+offset" : "subviews-not-offered:empty-slice-from-data()+offset");
+          if (cnt)
+          {
+            c.nontrivial = true;
+            VH_CHECK(c, sub[cnt - 1] == ms[k].p[off + cnt - 1], "last element of the rebuilt slice");
+          }
+        }
         break;
       }
       case 11:
@@ -1030,6 +1094,32 @@ struct Der : Obj<Side>
   int kind() const override { return 1; }
 };
 
+// a derived class whose Obj base is NOT at offset 0 (second, non-empty polymorphic base first): every
+// derived-to-base conversion of a pointer to it needs an address adjustment, so a conversion path that
+// re-interprets the bits instead of converting the pointer shows in id / kind() read through the base
+struct Pad
+{
+  long pad0 = 0x5a5a5a5a, pad1 = 0x0f0f0f0f;
+  virtual ~Pad() {}
+  virtual long pad_sum() const { return pad0 + pad1; }
+};
+template <int Side>
+struct Der2 : Pad, Obj<Side>
+{
+  int extra;
+  explicit Der2(int i) : Obj<Side>(i), extra(i * 3) {}
+  int kind() const override { return 2; }
+};
+
+// Finding C20-uptr-reset-order (FIXED in /repo 73d00ce): nostd::unique_ptr::reset destroyed the old
+// object BEFORE it stored the new pointer; std::unique_ptr stores first ([unique.ptr.single.modifiers]:
+// "the order of these operations is significant because the call to get_deleter() may destroy *this").
+// Shapes that observe the order - an object that (transitively) owns the pointer that manages it, a
+// pointee whose destructor looks at / resets its owner - made the nostd side destroy an object twice.
+// They are generated unless the finding is listed as open again (vh::excluded).
+const bool kHoldBack_uptr_reset_order = false;
+const char *const kUptrResetOrder     = "C20-uptr-reset-order";
+
 struct NPol
 {
   static constexpr int side = 0;
@@ -1054,6 +1144,8 @@ struct POp
   int id   = 0;
   int flag = 0;
   int n    = 0;
+  int alt  = 0;        // late draw: selects among alternatives added later (0 = the original form)
+  bool blind = false;  // shapes held back / excluded as an open finding are replaced by their harmless twin
 };
 
 enum UKind
@@ -1081,13 +1173,19 @@ enum UKind
   U_CHAIN_POP,
   U_CHAIN_POP_SECOND,
   U_CHAIN_SPLICE,
+  U_RING_CLOSE,
+  U_RING_BREAK,
+  U_WATCH_MAKE,
+  U_WATCH_DROP,
   U_NKINDS
 };
 const char *const kUNames[] = {"make",          "make_derived_to_base", "make_derived", "reset_new",    "reset",
                                "assign_null",   "move_assign",          "move_construct", "swap",       "convert_derived",
                                "release_delete", "release_rewrap",      "from_std",     "to_std",       "std_back",
                                "arr_make",      "arr_reset",            "arr_move",     "arr_null",
-                               "chain_push",    "chain_pop",            "chain_pop_second", "chain_splice"};
+                               "chain_push",    "chain_pop",            "chain_pop_second", "chain_splice",
+                               "ring_close",    "ring_break",           "watch_make",   "watch_drop"};
+static_assert(sizeof(kUNames) / sizeof(kUNames[0]) == U_NKINDS, "one name per unique_ptr operation");
 
 template <class P>
 struct UWorld
@@ -1097,18 +1195,129 @@ struct UWorld
   using D                = Der<S>;
   template <class T>
   using up = typename P::template up<T>;
+  using D2               = Der2<S>;
   up<O> b[4];
   up<D> d[2];
+  up<D2> e;  // derived object whose Obj base sits at a non-zero offset
   up<O[]> arr;
   std::unique_ptr<O> parked;  // a std::unique_ptr on both sides (conversions from/to the std type)
+  static const char *side_name() { return S == 0 ? "nostd" : "std (harness error)"; }
   // a pointee that owns the next one through the pointer under test (list idiom: head = move(head->next),
   // where the source of the move assignment is owned by the object the destination is about to give up)
   struct UNode : O
   {
     up<UNode> next;
+    bool dying = false;
     explicit UNode(int i) : O(i) {}
+    ~UNode()
+    {
+      // entered again for the same object while its first destruction is still running: the pointer under
+      // test deletes the object a second time (the recursion would never end, so the case stops here)
+      if (dying)
+        vh::fatal_failure(std::string(side_name()) + " side: object " + std::to_string(this->id) +
+                          " is destroyed a second time from inside its own destruction (exactly one destruction per "
+                          "managed object); " + g_reg[S].show());
+      dying = true;
+    }
   };
   up<UNode> chain[2];
+  // a closed ownership cycle (head -> ... -> tail -> head), reachable only through this raw pointer; a cycle
+  // of length 1 is an object that owns itself.  Giving up ANY of its links destroys every member once.
+  UNode *ring[2] = {nullptr, nullptr};
+  // a pointee that looks at the pointer managing it from inside its destructor (and, mode 1, resets that
+  // pointer again): with the std type the owner already holds its new value at that point
+  std::string wlog;  // declared before the watchers: written by their destructors
+  struct WNode : O
+  {
+    up<WNode> *owner;
+    int mode;
+    std::string *log;
+    bool dying = false;
+    WNode(int i, up<WNode> *ow, int m, std::string *lg) : O(i), owner(ow), mode(m), log(lg) {}
+    ~WNode()
+    {
+      if (dying)
+        vh::fatal_failure(std::string(side_name()) + " side: watcher " + std::to_string(this->id) +
+                          " is destroyed a second time from inside its own destruction (exactly one destruction per "
+                          "managed object); " + g_reg[S].show());
+      dying = true;
+      if (owner == nullptr)
+        return;
+      const WNode *seen = owner->get();
+      *log += "dtor(" + std::to_string(this->id) + ") sees owner=" +
+              (seen == nullptr ? std::string("null") : seen == this ? std::string("itself") : "other:" + std::to_string(seen->id));
+      if (mode == 1)
+      {
+        *log += " resets-owner";
+        owner->reset();
+      }
+      *log += "; ";
+    }
+  };
+  up<WNode> wslot[2];
+
+  UWorld() = default;
+  ~UWorld()
+  {
+    // leaving (also by a failed check): nothing observes any more, cycles are opened by release()
+    for (auto &w : wslot)
+      if (w)
+        w->owner = nullptr;
+    for (auto &r : ring)
+      if (r)
+      {
+        up<UNode> t(r->next.release());
+        r = nullptr;
+      }
+  }
+  void close_ring(int k, int id, bool two)
+  {
+    if (ring[k])
+      return;
+    if (!chain[k] && two)
+    {
+      UNode *a = new UNode(id), *b2 = new UNode(id + 250);  // two objects that own each other
+      a->next.reset(b2);
+      b2->next.reset(a);
+      ring[k] = a;
+    }
+    else if (!chain[k])
+    {
+      UNode *n = new UNode(id);  // an object that owns itself
+      n->next.reset(n);
+      ring[k] = n;
+    }
+    else
+    {
+      UNode *head = chain[k].release();
+      UNode *tail = head;
+      while (tail->next)
+        tail = tail->next.get();
+      tail->next.reset(head);
+      ring[k] = head;
+    }
+  }
+  int ring_len(int k) const
+  {
+    int n = 0;
+    if (ring[k])
+    {
+      const UNode *p = ring[k];
+      do
+      {
+        ++n;
+        p = p->next.get();
+      } while (p && p != ring[k] && n < 64);
+    }
+    return n;
+  }
+  int chain_len(int k) const
+  {
+    int n = 0;
+    for (const UNode *p = chain[k].get(); p && n < 64; p = p->next.get())
+      ++n;
+    return n;
+  }
 
   void step(const POp &op, std::ostream &o)
   {
@@ -1118,7 +1327,17 @@ struct UWorld
         b[op.i] = up<O>(new O(op.id));
         break;
       case U_MAKE_DERIVED_TO_BASE:
-        if (op.flag)
+        if (op.alt & 1)
+        {
+          if (op.flag)
+          {
+            up<O> t(up<D2>(new D2(op.id)));  // converting move construction, base at a non-zero offset
+            b[op.i] = std::move(t);
+          }
+          else
+            b[op.i] = up<D2>(new D2(op.id));
+        }
+        else if (op.flag)
         {
           up<O> t(up<D>(new D(op.id)));  // converting move construction
           b[op.i] = std::move(t);
@@ -1127,7 +1346,10 @@ struct UWorld
           b[op.i] = up<D>(new D(op.id));  // converting move assignment
         break;
       case U_MAKE_DERIVED:
-        d[op.k].reset(new D(op.id));
+        if (op.alt & 1)
+          e.reset(new D2(op.id));
+        else
+          d[op.k].reset(new D(op.id));
         break;
       case U_RESET_NEW:
         b[op.i].reset(new O(op.id));
@@ -1155,7 +1377,18 @@ struct UWorld
         b[op.i].swap(b[op.j]);
         break;
       case U_CONVERT_DERIVED:
-        if (op.flag)
+        if (op.alt & 1)
+        {
+          if (op.flag)
+          {
+            up<O> t(std::move(e));
+            b[op.i] = std::move(t);
+          }
+          else
+            b[op.i] = std::move(e);
+          o << "src-null-after-move=" << (e.get() == nullptr) << " ";
+        }
+        else if (op.flag)
         {
           up<O> t(std::move(d[op.k]));
           b[op.i] = std::move(t);
@@ -1183,7 +1416,19 @@ struct UWorld
       case U_FROM_STD:
       {
         // the nostd pointer accepts std::unique_ptr<U>&& (construction and assignment)
-        if (op.flag & 1)
+        if ((op.flag & 1) && (op.alt & 1))
+        {
+          std::unique_ptr<D2> s(op.flag & 4 ? nullptr : new D2(op.id));
+          if (op.flag & 2)
+          {
+            up<O> t(std::move(s));
+            b[op.i] = std::move(t);
+          }
+          else
+            b[op.i] = std::move(s);
+          o << "std-src-null=" << (s == nullptr) << " ";
+        }
+        else if (op.flag & 1)
         {
           std::unique_ptr<D> s(op.flag & 4 ? nullptr : new D(op.id));
           if (op.flag & 2)
@@ -1248,12 +1493,13 @@ struct UWorld
         arr = nullptr;
         break;
       case U_CHAIN_PUSH:
-      {
-        up<UNode> n(new UNode(op.id));
-        n->next     = std::move(chain[op.k]);
-        chain[op.k] = std::move(n);
+        for (int q = 0; q < ((op.flag & 4) ? 2 : 1); ++q)
+        {
+          up<UNode> n(new UNode(op.id + 250 * q));
+          n->next     = std::move(chain[op.k]);
+          chain[op.k] = std::move(n);
+        }
         break;
-      }
       case U_CHAIN_POP:
         if (chain[op.k])
           chain[op.k] = std::move(chain[op.k]->next);
@@ -1267,6 +1513,85 @@ struct UWorld
         if (chain[op.k] && chain[op.k]->next)
           chain[op.flag & 1] = std::move(chain[op.k]->next);
         break;
+      case U_RING_CLOSE:
+        close_ring(op.k, op.id, (op.flag & 2) != 0);
+        break;
+      case U_RING_BREAK:
+      {
+        close_ring(op.k, op.id + 500, (op.flag & 2) != 0);  // no cycle yet: chain k (or a fresh object owning itself) is closed first
+        UNode *h   = ring[op.k];
+        ring[op.k] = nullptr;
+        switch (op.blind ? 0 : op.alt % 5)
+        {
+          case 0:
+          {  // opened by release(): becomes a plain chain again (successor ... head)
+            up<UNode> t(h->next.release());
+            chain[op.flag & 1] = std::move(t);
+            break;
+          }
+          case 1:  // from here on: one link is given up through the member itself; std destroys every
+                   // member of the cycle exactly once (the link is null before the first delete)
+            h->next.reset();
+            break;
+          case 2:
+            h->next = nullptr;
+            break;
+          case 3:
+            h->next = up<UNode>();
+            break;
+          default:
+            h->next.reset(new UNode(op.id));
+            break;
+        }
+        break;
+      }
+      case U_WATCH_MAKE:
+      {
+        WNode *n = new WNode(op.id, op.blind ? nullptr : &wslot[op.k], op.flag & 1, &wlog);
+        switch ((op.flag >> 1) % 3)
+        {
+          case 0:
+            wslot[op.k].reset(n);
+            break;
+          case 1:
+            wslot[op.k] = up<WNode>(n);
+            break;
+          default:
+          {
+            up<WNode> t(n);
+            wslot[op.k].swap(t);
+            break;  // the old watcher dies with t: its owner holds the new one
+          }
+        }
+        break;
+      }
+      case U_WATCH_DROP:
+        if (!wslot[op.k])  // nothing to give up yet: a watcher moves in first (constructor, nothing destroyed)
+          wslot[op.k] = up<WNode>(new WNode(op.id + 500, op.blind ? nullptr : &wslot[op.k], op.flag & 1, &wlog));
+        switch (op.alt % 4)
+        {
+          case 0:
+            wslot[op.k].reset();
+            break;
+          case 1:
+            wslot[op.k] = nullptr;
+            break;
+          case 2:
+            wslot[op.k] = up<WNode>();
+            break;
+          default:
+            wslot[op.k] = std::move(wslot[op.k ^ 1]);  // the other watcher moves in
+            break;
+        }
+        break;
+    }
+    for (auto &w : wslot)
+      if (w && w->owner)
+        w->owner = &w;
+    if (!wlog.empty())
+    {
+      o << wlog;
+      wlog.clear();
     }
   }
 
@@ -1291,13 +1616,19 @@ struct UWorld
         o << d[k]->id << "/" << d[k]->kind() << "/" << d[k]->extra;
       o << (static_cast<bool>(d[k]) ? "+" : "-") << " ";
     }
-    o << "eq=";
+    o << "e=";
+    if (e.get() == nullptr)
+      o << "null";
+    else
+      o << e->id << "/" << e->kind() << "/" << (*e).extra << "/" << e.get()->pad_sum();
+    o << (static_cast<bool>(e) ? "+" : "-") << " eq=";
     for (int i = 0; i < 4; ++i)
     {
       for (int j = 0; j < 4; ++j)
         o << (b[i] == b[j]) << (b[i] != b[j]);
       for (int k = 0; k < 2; ++k)
         o << (b[i] == d[k]) << (b[i] != d[k]) << (d[k] == b[i]);
+      o << (b[i] == e) << (b[i] != e) << (e == b[i]);  // mixed comparison needs the pointer adjustment
     }
     o << " arr=" << (arr.get() ? arr.get()[0].id : -1) << (static_cast<bool>(arr) ? "+" : "-");
     o << " parked=" << (parked ? parked->id : -1);
@@ -1309,6 +1640,24 @@ struct UWorld
         o << n->id << ",";
       o << "]";
     }
+    for (int k = 0; k < 2; ++k)
+    {
+      o << " ring" << k << "=(";
+      if (ring[k])
+      {
+        const UNode *n = ring[k];
+        int guard     = 0;
+        do
+        {
+          o << n->id << ",";
+          n = n->next.get();
+        } while (n && n != ring[k] && ++guard < 64);
+        o << (n == ring[k] ? "closed" : "OPEN");
+      }
+      o << ")";
+    }
+    for (int k = 0; k < 2; ++k)
+      o << " w" << k << "=" << (wslot[k] ? wslot[k]->id : -1) << (static_cast<bool>(wslot[k]) ? "+" : "-");
     o << " " << g_reg[S].show();
   }
 };
@@ -1318,8 +1667,10 @@ VH_TARGET(uptr_ops, 3,
           "a program is non-trivial when it contains an ownership transfer between two slots that "
           "both hold an object, a self move-assignment / self swap of an owning pointer, a "
           "release, a conversion (derived-to-base, from/to std::unique_ptr) of an owning "
-          "pointer, or a move assignment whose source is owned by the object the destination holds "
-          "(list pop); distinct = distinct operation sequence text")
+          "pointer, a move assignment whose source is owned by the object the destination holds "
+          "(list pop), the opening / destruction of an ownership cycle (an object owning itself, two "
+          "objects owning each other, a closed chain), or the destruction of a pointee that looks at "
+          "its owner; distinct = distinct operation sequence text")
 {
   vh::Reader &rd = c.rd;
   g_reg[0].reset();
@@ -1337,16 +1688,21 @@ VH_TARGET(uptr_ops, 3,
     wn.d[0].reset(new Der<0>(next_id));
     ws.d[0].reset(new Der<1>(next_id));
     ++next_id;
+    wn.e.reset(new Der2<0>(next_id));
+    ws.e.reset(new Der2<1>(next_id));
+    ++next_id;
     unsigned nops = 1 + rd.below(24);
     for (unsigned step = 0; step < nops && (step == 0 || !rd.exhausted()); ++step)
     {
       POp op;
-      op.kind = static_cast<int>(rd.weighted({14, 5, 5, 4, 3, 3, 12, 6, 8, 6, 4, 5, 6, 4, 4, 3, 2, 2, 1, 9, 6, 3, 3}));
+      op.kind = static_cast<int>(
+          rd.weighted({14, 5, 5, 4, 3, 3, 12, 6, 8, 6, 4, 5, 6, 4, 4, 3, 2, 2, 1, 9, 6, 3, 3, 5, 6, 5, 4}));
       op.i    = static_cast<int>(rd.below(4));
       op.j    = static_cast<int>(rd.below(4));
       op.k    = static_cast<int>(rd.below(2));
       op.flag = static_cast<int>(rd.below(8));
       op.n    = 1 + static_cast<int>(rd.below(3));
+      op.alt  = static_cast<int>(rd.below(20));
       op.id   = next_id++;
       // operands are usually owning slots (decided on the std side, which is the reference)
       for (int t = 0; t < 4 && !ws.b[op.j] && (t > 0 || rd.chance(70)); ++t)
@@ -1359,12 +1715,74 @@ VH_TARGET(uptr_ops, 3,
         op.k ^= 1;
       if ((op.kind == U_MOVE_ASSIGN || op.kind == U_SWAP) && rd.chance(12))
         op.j = op.i;  // self
+      // chain / ring / watcher operations go to the slot where they have an effect (no extra draw)
+      {
+        int need = op.kind == U_CHAIN_POP ? 2 : (op.kind == U_CHAIN_POP_SECOND || op.kind == U_CHAIN_SPLICE) ? 3 : 0;
+        if (need && ws.chain_len(op.k) < need && ws.chain_len(op.k ^ 1) > ws.chain_len(op.k))
+          op.k ^= 1;
+        if (op.kind == U_RING_BREAK && !ws.ring[op.k] && (ws.ring[op.k ^ 1] || ws.chain_len(op.k ^ 1) > ws.chain_len(op.k)))
+          op.k ^= 1;
+        if (op.kind == U_RING_CLOSE && ws.ring[op.k] && !ws.ring[op.k ^ 1])
+          op.k ^= 1;
+        if (op.kind == U_WATCH_DROP && !ws.wslot[op.k] && ws.wslot[op.k ^ 1])
+          op.k ^= 1;
+      }
+      // the shapes of C20-uptr-reset-order (see kHoldBack_uptr_reset_order) are replaced by their harmless
+      // twins while the finding is held back or listed as open: a cycle is only ever opened by release(),
+      // watchers do not look at their owner
+      if (op.kind == U_RING_BREAK || op.kind == U_WATCH_MAKE || op.kind == U_WATCH_DROP)
+      {
+        bool open_finding = vh::excluded(kUptrResetOrder);
+        if (kHoldBack_uptr_reset_order || open_finding)
+        {
+          op.blind = true;
+          if (open_finding && (op.kind != U_RING_BREAK || op.alt % 5 != 0))
+            vh::count_excluded(kUptrResetOrder);
+        }
+      }
       bool src_owns = ws.b[op.j].get() != nullptr, dst_owns = ws.b[op.i].get() != nullptr;
       std::ostringstream d;
-      d << kUNames[op.kind] << "(i=" << op.i << ",j=" << op.j << ",k=" << op.k << ",f=" << op.flag << ")";
+      d << kUNames[op.kind] << "(i=" << op.i << ",j=" << op.j << ",k=" << op.k << ",f=" << op.flag << ",a=" << op.alt
+        << (op.blind ? ",held-back" : "") << ")";
       c.note(d.str() + "\n");
+      const bool second_base = (op.alt & 1) != 0;
       switch (op.kind)
       {
+        case U_RING_CLOSE:
+          if (ws.ring[op.k])
+            c.tag("ring_close-not-applicable");
+          else
+          {
+            int len = ws.chain_len(op.k);
+            c.tag(len == 0 ? ((op.flag & 2) ? "ring_close-two-objects-own-each-other" : "ring_close-object-owns-itself")
+                           : len == 1 ? "ring_close-chain-of-1" : "ring_close-chain-of-2+");
+          }
+          break;
+        case U_RING_BREAK:
+        {
+          static const char *const how[] = {"opened-by-release", "member.reset()", "member=nullptr", "member=move(empty)",
+                                            "member.reset(new)"};
+          int len = ws.ring[op.k] ? ws.ring_len(op.k) : (ws.chain_len(op.k) ? ws.chain_len(op.k) : ((op.flag & 2) ? 2 : 1));
+          c.tag(std::string("ring_break-") + how[op.blind ? 0 : op.alt % 5] + (len == 1 ? "-self-owner" : "-cycle-of-2+"));
+          c.nontrivial = true;
+          break;
+        }
+        case U_WATCH_MAKE:
+          c.tag(std::string("watch_make") + (ws.wslot[op.k] ? "-over-watcher" : "-into-null") + (op.blind ? "-blind" : "") +
+                (!op.blind && (op.flag & 1) ? "-reentrant" : ""));
+          c.nontrivial = c.nontrivial || (!op.blind && ws.wslot[op.k]);
+          break;
+        case U_WATCH_DROP:
+        {
+          static const char *const how[] = {"reset()", "=nullptr", "=move(empty)", "=move(other-watcher)"};
+          c.tag(std::string("watch_drop-") + how[op.alt % 4] + (op.blind ? "-blind" : (op.flag & 1) && !ws.wslot[op.k] ? "-reentrant" : ""));
+          c.nontrivial = c.nontrivial || !op.blind;
+          break;
+        }
+        case U_MAKE_DERIVED_TO_BASE:
+        case U_MAKE_DERIVED:
+          c.tag(std::string(kUNames[op.kind]) + (second_base ? "-base-at-offset" : ""));
+          break;
         case U_MOVE_ASSIGN:
         case U_MOVE_CONSTRUCT:
         case U_SWAP:
@@ -1389,11 +1807,16 @@ VH_TARGET(uptr_ops, 3,
           c.nontrivial = c.nontrivial || dst_owns;
           break;
         case U_CONVERT_DERIVED:
-          c.tag(std::string(kUNames[op.kind]) + (ws.d[op.k] ? "-owning" : "-null") + (dst_owns ? "-over-owning" : ""));
-          c.nontrivial = c.nontrivial || ws.d[op.k] != nullptr;
+        {
+          bool owning = second_base ? ws.e != nullptr : ws.d[op.k] != nullptr;
+          c.tag(std::string(kUNames[op.kind]) + (second_base ? "-base-at-offset" : "") + (owning ? "-owning" : "-null") +
+                (dst_owns ? "-over-owning" : ""));
+          c.nontrivial = c.nontrivial || owning;
           break;
+        }
         case U_FROM_STD:
-          c.tag(std::string("from_std") + (op.flag & 1 ? "-derived" : "") + (op.flag & 2 ? "-ctor" : "-assign") +
+          c.tag(std::string("from_std") + (op.flag & 1 ? (second_base ? "-derived-base-at-offset" : "-derived") : "") +
+                (op.flag & 2 ? "-ctor" : "-assign") +
                 (op.flag & 4 ? "-null" : ""));
           c.nontrivial = c.nontrivial || !(op.flag & 4);
           break;
@@ -1450,6 +1873,14 @@ struct DNode : Node<P>
   int kind() const override { return 1; }
 };
 
+// derived node whose Node base sits at a non-zero offset (see Pad / Der2)
+template <class P>
+struct DNode2 : Pad, Node<P>
+{
+  explicit DNode2(int i) : Node<P>(i) {}
+  int kind() const override { return 2; }
+};
+
 enum SKind
 {
   S_MAKE_RAW,
@@ -1469,11 +1900,16 @@ enum SKind
   S_ADVANCE_MOVE,
   S_UNLINK,
   S_TO_CONST,
+  S_ADVANCE_NULL,
+  S_RING_CLOSE,
+  S_RING_BREAK,
   S_NKINDS
 };
 const char *const kSNames[] = {"make_raw",    "make_from_std",  "drop_ext",       "copy_assign", "move_assign",     "copy_construct",
                                "move_construct", "assign_null", "swap",           "make_derived", "convert_derived", "from_unique",
-                               "link",        "advance_copy",   "advance_move",   "unlink",      "to_const"};
+                               "link",        "advance_copy",   "advance_move",   "unlink",      "to_const",
+                               "advance_null", "ring_close",    "ring_break"};
+static_assert(sizeof(kSNames) / sizeof(kSNames[0]) == S_NKINDS, "one name per shared_ptr operation");
 
 template <class P>
 struct SWorld
@@ -1485,10 +1921,41 @@ struct SWorld
   using sp = typename P::template sp<T>;
   template <class T>
   using up = typename P::template up<T>;
+  using DN2              = DNode2<P>;
   sp<N> s[4];
   sp<DN> d[2];
+  sp<DN2> e;  // derived node whose Node base sits at a non-zero offset
   sp<const N> cs;
   std::shared_ptr<N> ext[2];  // std::shared_ptr co-owners on both sides: use_count() is observable
+  // an ownership cycle without outside owner (a node owning itself / two nodes owning each other), reachable
+  // through this raw pointer only; giving up one link through the member destroys every member once
+  N *ring[2] = {nullptr, nullptr};
+
+  SWorld() = default;
+  ~SWorld()
+  {
+    for (auto &r : ring)
+      if (r)
+      {
+        sp<N> t(std::move(r->next));  // opened by moving the link out
+        r = nullptr;
+      }
+  }
+  void close_ring(int k, int id, bool two)
+  {
+    if (ring[k])
+      return;
+    N *a = new N(id);
+    if (two)
+    {
+      N *b2   = new N(id + 250);
+      a->next = sp<N>(b2);
+      b2->next = sp<N>(a);
+    }
+    else
+      a->next = sp<N>(a);
+    ring[k] = a;
+  }
 
   void step(const POp &op, std::ostream &o)
   {
@@ -1543,10 +2010,24 @@ struct SWorld
         s[op.i].swap(s[op.j]);
         break;
       case S_MAKE_DERIVED:
-        d[op.k] = sp<DN>(new DN(op.id));
+        if (op.alt & 1)
+          e = sp<DN2>(new DN2(op.id));
+        else
+          d[op.k] = sp<DN>(new DN(op.id));
         break;
       case S_CONVERT_DERIVED:
-        if (op.flag & 1)
+        if ((op.alt & 1) && (op.flag & 1))
+        {
+          sp<DN2> t(e);  // keeps e: ownership shared across pointer types, addresses differ
+          s[op.i] = sp<N>(std::move(t));
+        }
+        else if (op.alt & 1)
+        {
+          sp<N> t(std::move(e));
+          o << "src-null-after-move=" << (e.get() == nullptr) << " ";
+          s[op.i] = std::move(t);
+        }
+        else if (op.flag & 1)
         {
           sp<DN> t(d[op.k]);  // keeps d[k]: ownership shared across pointer types
           s[op.i] = sp<N>(std::move(t));
@@ -1602,9 +2083,59 @@ struct SWorld
           s[op.i]->next = nullptr;
         break;
       case S_TO_CONST:
+        if (op.alt & 1)
+        {
+          sp<DN2> t(e);
+          cs = sp<const N>(std::move(t));  // derived-to-base (adjusted) and to const in one conversion
+        }
+        else
+        {
+          sp<N> t(s[op.i]);
+          cs = sp<const N>(std::move(t));
+        }
+        break;
+      case S_ADVANCE_NULL:
+        if (s[op.i])
+        {
+          sp<N> keep = s[op.i]->next;  // the rest of the list survives the owner of its head
+          s[op.i]    = nullptr;
+          o << "kept=" << (keep ? keep->id : -1) << " ";
+          s[op.i] = std::move(keep);
+        }
+        break;
+      case S_RING_CLOSE:
+        close_ring(op.k, op.id, (op.flag & 2) != 0);
+        break;
+      case S_RING_BREAK:
       {
-        sp<N> t(s[op.i]);
-        cs = sp<const N>(std::move(t));
+        close_ring(op.k, op.id + 500, (op.flag & 2) != 0);
+        N *h       = ring[op.k];
+        ring[op.k] = nullptr;
+        switch (op.alt % 5)
+        {
+          case 0:
+          {
+            sp<N> t(std::move(h->next));  // link moved out, cycle dies with the local
+            break;
+          }
+          case 1:
+            h->next = nullptr;  // from here on the member that is assigned dies during the assignment
+            break;
+          case 2:
+            h->next = sp<N>();
+            break;
+          // (no copy assignment here: libstdc++'s copy assignment releases the old control block before it
+          // stores the new one and then writes into the member that has just been destroyed)
+          case 3:
+          {
+            sp<N> empty;
+            h->next.swap(empty);
+            break;
+          }
+          default:
+            h->next = sp<N>(new N(op.id));
+            break;
+        }
         break;
       }
     }
@@ -1633,7 +2164,13 @@ struct SWorld
     }
     for (int k = 0; k < 2; ++k)
       o << "d" << k << "=" << (d[k] ? d[k]->id : -1) << (static_cast<bool>(d[k]) ? "+" : "-") << " ";
-    o << "cs=" << (cs ? cs->id : -1) << " eq=";
+    o << "e=";
+    if (e.get() == nullptr)
+      o << "null";
+    else
+      o << e->id << "/" << (*e).kind() << "/" << e.get()->pad_sum();
+    o << (static_cast<bool>(e) ? "+" : "-") << " ";
+    o << "cs=" << (cs ? cs->id : -1) << "/" << (cs ? cs->kind() : -1) << " eq=";
     for (int i = 0; i < 4; ++i)
     {
       for (int j = 0; j < 4; ++j)
@@ -1641,9 +2178,27 @@ struct SWorld
       for (int k = 0; k < 2; ++k)
         o << (s[i] == d[k]) << (s[i] != d[k]) << (d[k] == s[i]);
       o << (s[i] == cs) << (cs != s[i]);
+      o << (s[i] == e) << (s[i] != e) << (e == s[i]);  // mixed comparison needs the pointer adjustment
     }
+    o << (cs == e) << (e != cs);
     for (int k = 0; k < 2; ++k)
       o << " ext" << k << "=" << (ext[k] ? ext[k]->id : -1) << "#" << ext[k].use_count();
+    for (int k = 0; k < 2; ++k)
+    {
+      o << " ring" << k << "=(";
+      if (ring[k])
+      {
+        const N *n = ring[k];
+        int guard  = 0;
+        do
+        {
+          o << n->id << ",";
+          n = n->next.get();
+        } while (n && n != ring[k] && ++guard < 8);
+        o << (n == ring[k] ? "closed" : "OPEN");
+      }
+      o << ")";
+    }
     o << " " << g_reg[S].show();
   }
   // owners of the object in slot i among the observable handles (std side is the reference)
@@ -1657,6 +2212,7 @@ struct SWorld
     for (int q = 0; q < 2; ++q)
       n += (d[q].get() == s[i].get()) + (ext[q].get() == s[i].get());
     n += cs.get() == s[i].get();
+    n += static_cast<const N *>(e.get()) == s[i].get();
     return n;
   }
 };
@@ -1665,7 +2221,8 @@ struct SWorld
 VH_TARGET(sptr_ops, 3,
           "a program is non-trivial when it contains a copy/move/swap between two slots of which at "
           "least one owns an object, a self copy-/move-assignment or self swap of an owning "
-          "pointer, an advance along a link (p = p->next), or a conversion (derived-to-base, from "
+          "pointer, an advance along a link (p = p->next, also through p = nullptr), the destruction of "
+          "an ownership cycle through one of its own links, or a conversion (derived-to-base, from "
           "unique_ptr, to const) of an owning pointer; distinct = distinct operation sequence text")
 {
   vh::Reader &rd = c.rd;
@@ -1683,20 +2240,24 @@ VH_TARGET(sptr_ops, 3,
     wn.d[0] = nostd::shared_ptr<DNode<NPol>>(new DNode<NPol>(next_id));
     ws.d[0] = std::shared_ptr<DNode<SPol>>(new DNode<SPol>(next_id));
     ++next_id;
+    wn.e = nostd::shared_ptr<DNode2<NPol>>(new DNode2<NPol>(next_id));
+    ws.e = std::shared_ptr<DNode2<SPol>>(new DNode2<SPol>(next_id));
+    ++next_id;
     unsigned nops = 1 + rd.below(24);
     for (unsigned step = 0; step < nops && (step == 0 || !rd.exhausted()); ++step)
     {
       POp op;
-      op.kind = static_cast<int>(rd.weighted({12, 6, 3, 14, 12, 6, 6, 4, 8, 3, 5, 5, 10, 6, 5, 2, 3}));
+      op.kind = static_cast<int>(rd.weighted({12, 6, 3, 14, 12, 6, 6, 4, 8, 3, 5, 5, 10, 6, 5, 2, 3, 4, 2, 6}));
       op.i    = static_cast<int>(rd.below(4));
       op.j    = static_cast<int>(rd.below(4));
       op.k    = static_cast<int>(rd.below(2));
       op.flag = static_cast<int>(rd.below(8));
+      op.alt  = static_cast<int>(rd.below(12));
       op.id   = next_id++;
       for (int t = 0; t < 4 && !ws.s[op.j] && (t > 0 || rd.chance(70)); ++t)
         op.j = (op.j + 1) % 4;
       if (op.kind == S_SWAP || op.kind == S_MOVE_ASSIGN || op.kind == S_COPY_ASSIGN || op.kind == S_LINK ||
-          op.kind == S_ADVANCE_COPY || op.kind == S_ADVANCE_MOVE || op.kind == S_TO_CONST)
+          op.kind == S_ADVANCE_COPY || op.kind == S_ADVANCE_MOVE || op.kind == S_TO_CONST || op.kind == S_ADVANCE_NULL)
         for (int t = 0; t < 4 && !ws.s[op.i] && (t > 0 || rd.chance(60)); ++t)
           op.i = (op.i + 1) % 4;
       if (op.kind == S_CONVERT_DERIVED && !ws.d[op.k] && rd.chance(70))
@@ -1711,9 +2272,13 @@ VH_TARGET(sptr_ops, 3,
         if (ws.s[op.i] && ws.s[op.j] && ws.s[op.j]->id < ws.s[op.i]->id)
           std::swap(op.i, op.j);
       }
-      if (op.kind == S_ADVANCE_COPY || op.kind == S_ADVANCE_MOVE)
+      if (op.kind == S_ADVANCE_COPY || op.kind == S_ADVANCE_MOVE || op.kind == S_ADVANCE_NULL)
         for (int t = 0; t < 4 && !(ws.s[op.i] && ws.s[op.i]->next) && (t > 0 || rd.chance(75)); ++t)
           op.i = (op.i + 1) % 4;
+      if (op.kind == S_RING_BREAK && !ws.ring[op.k] && ws.ring[op.k ^ 1])
+        op.k ^= 1;
+      if (op.kind == S_RING_CLOSE && ws.ring[op.k] && !ws.ring[op.k ^ 1])
+        op.k ^= 1;
       // open finding F17 (assignment releases the old object before it takes the new one): when it
       // is excluded, self-assignment and assignment from the own pointee's member are not generated
       if (vh::excluded("F17"))
@@ -1728,13 +2293,56 @@ VH_TARGET(sptr_ops, 3,
           op.kind = S_UNLINK;
           vh::count_excluded("F17");
         }
+        if (op.kind == S_RING_BREAK && (op.alt % 5 == 2 || op.alt % 5 == 4))
+        {
+          op.alt = 0;  // the assigned member is owned by the object the assignment releases
+          vh::count_excluded("F17");
+        }
       }
       bool src_owns = ws.s[op.j].get() != nullptr, dst_owns = ws.s[op.i].get() != nullptr;
       std::ostringstream d;
-      d << kSNames[op.kind] << "(i=" << op.i << ",j=" << op.j << ",k=" << op.k << ",f=" << op.flag << ")";
+      d << kSNames[op.kind] << "(i=" << op.i << ",j=" << op.j << ",k=" << op.k << ",f=" << op.flag << ",a=" << op.alt << ")";
       c.note(d.str() + "\n");
+      const bool second_base = (op.alt & 1) != 0;
       switch (op.kind)
       {
+        case S_MAKE_DERIVED:
+          c.tag(std::string(kSNames[op.kind]) + (second_base ? "-base-at-offset" : ""));
+          break;
+        case S_ADVANCE_NULL:
+          if (dst_owns)
+          {
+            c.tag(std::string(kSNames[op.kind]) + (ws.owners_of(op.i) == 1 ? "-sole-owner" : "-shared") +
+                  (ws.s[op.i]->next != nullptr ? "-has-next" : "-end-of-list"));
+            c.nontrivial = true;
+          }
+          else
+            c.tag(std::string(kSNames[op.kind]) + "-null");
+          break;
+        case S_RING_CLOSE:
+          c.tag(ws.ring[op.k] ? "ring_close-not-applicable"
+                              : (op.flag & 2) ? "ring_close-two-nodes-own-each-other" : "ring_close-node-owns-itself");
+          break;
+        case S_RING_BREAK:
+        {
+          static const char *const how[] = {"link-moved-out", "member=nullptr", "member=move(empty)", "member.swap(empty)",
+                                            "member=move(new)"};
+          int len = 0;
+          if (ws.ring[op.k])
+          {
+            const Node<SPol> *n = ws.ring[op.k];
+            do
+            {
+              ++len;
+              n = n->next.get();
+            } while (n && n != ws.ring[op.k] && len < 8);
+          }
+          else
+            len = (op.flag & 2) ? 2 : 1;
+          c.tag(std::string("ring_break-") + how[op.alt % 5] + (len == 1 ? "-self-owner" : "-cycle-of-2"));
+          c.nontrivial = true;
+          break;
+        }
         case S_COPY_ASSIGN:
         case S_MOVE_ASSIGN:
         case S_SWAP:
@@ -1767,9 +2375,13 @@ VH_TARGET(sptr_ops, 3,
             c.tag(std::string(kSNames[op.kind]) + "-null");
           break;
         case S_CONVERT_DERIVED:
-          c.tag(std::string(kSNames[op.kind]) + (op.flag & 1 ? "-copy" : "-move") + (ws.d[op.k] ? "-owning" : "-null"));
-          c.nontrivial = c.nontrivial || ws.d[op.k] != nullptr;
+        {
+          bool owning = second_base ? ws.e != nullptr : ws.d[op.k] != nullptr;
+          c.tag(std::string(kSNames[op.kind]) + (second_base ? "-base-at-offset" : "") + (op.flag & 1 ? "-copy" : "-move") +
+                (owning ? "-owning" : "-null"));
+          c.nontrivial = c.nontrivial || owning;
           break;
+        }
         case S_FROM_UNIQUE:
           c.tag(std::string(kSNames[op.kind]) + (op.flag & 1 ? "-std" : "-nostd") + (op.flag & 4 ? "-null" : ""));
           c.nontrivial = c.nontrivial || !(op.flag & 4);
@@ -1778,8 +2390,16 @@ VH_TARGET(sptr_ops, 3,
           c.tag(src_owns && dst_owns && ws.s[op.j]->id > ws.s[op.i]->id ? "link" : "link-not-applicable");
           break;
         case S_TO_CONST:
-          c.tag(dst_owns ? "to_const-owning" : "to_const-null");
-          c.nontrivial = c.nontrivial || dst_owns;
+          if (second_base)
+          {
+            c.tag(ws.e ? "to_const-from-derived-base-at-offset-owning" : "to_const-from-derived-base-at-offset-null");
+            c.nontrivial = c.nontrivial || ws.e != nullptr;
+          }
+          else
+          {
+            c.tag(dst_owns ? "to_const-owning" : "to_const-null");
+            c.nontrivial = c.nontrivial || dst_owns;
+          }
           break;
         default:
           c.tag(kSNames[op.kind]);
@@ -1812,6 +2432,24 @@ long fn_triple(int x)
 long fn_neg(int x)
 {
   return -static_cast<long>(x);
+}
+// convertible-but-different signatures for function_ref<long(int)>: the stored pointer goes through void* and
+// must be called through its OWN type, with the argument / result conversions applied around the call
+int fn_conv(long x)  // argument widened, result widened
+{
+  return static_cast<int>(x % 1000) * 2 - 7;
+}
+long fn_cref(const int &x)  // argument bound to a reference
+{
+  return 5L * x - 3;
+}
+long fn_noexcept(int x) noexcept  // noexcept is part of the function type
+{
+  return 11L - x;
+}
+short fn_short(short x)  // argument narrowed, result widened
+{
+  return static_cast<short>(x + 1);
 }
 struct Acc
 {
@@ -1855,8 +2493,9 @@ size_t for_each_kv(const std::vector<std::pair<std::string, std::string>> &kv,
 }  // namespace
 
 VH_TARGET(fref_ops, 2,
-          "a program is non-trivial when a call goes through a copy of a reference, or reaches a "
-          "stateful callable that was already called before (state carried between calls); distinct = "
+          "a program is non-trivial when a call goes through a copy of a reference, reaches a "
+          "stateful callable that was already called before (state carried between calls), or reaches a "
+          "function whose signature differs from the reference's (converted argument / result); distinct = "
           "distinct (seeds, operation sequence) text")
 {
   vh::Reader &rd = c.rd;
@@ -1872,6 +2511,14 @@ VH_TARGET(fref_ops, 2,
   long (*nullfp)(int) = nullptr;
   c.note("seeds " + std::to_string(seed_a) + "," + std::to_string(seed_l) + "," + std::to_string(kk) + "\n");
 
+  // a function_ref of ANOTHER signature as the callable (named object: the outer reference stores its address)
+  Acc fi{seed_a + 1}, fi_twin{seed_a + 1};
+  auto inner_lam = [&fi](long v) { return static_cast<int>(fi(static_cast<int>(v)) % 1000); };
+  nostd::function_ref<int(long)> inner_named(inner_lam);
+  int (*fp_conv)(long) = fn_conv;
+  // (a noexcept FUNCTION cannot be bound at all in C++17 - BindTo(F&) is chosen and does not compile - so only
+  // the pointer form is offered)
+  long (*fp_noexcept)(int) noexcept = fn_noexcept;
   enum
   {
     T_FN,
@@ -1880,10 +2527,19 @@ VH_TARGET(fref_ops, 2,
     T_CONST_FUNCTOR,
     T_LAMBDA,
     T_REF_LAMBDA,
+    T_FN_CONV,
+    T_FPTR_CONV,
+    T_FN_CREF,
+    T_FN_NOEXCEPT,
+    T_FN_SHORT,
+    T_INNER_REF,
     T_N
   };
-  static const char *const tn[] = {"function", "fptr", "functor", "const-functor", "mutable-lambda", "ref-lambda"};
-  int calls[T_N] = {0, 0, 0, 0, 0, 0};
+  static const char *const tn[] = {"function",       "fptr",          "functor",       "const-functor",
+                                   "mutable-lambda", "ref-lambda",    "function-int(long)", "fptr-int(long)",
+                                   "function-long(const-int&)", "fptr-noexcept", "function-short(short)",
+                                   "function_ref<int(long)>"};
+  int calls[T_N] = {};
   auto direct    = [&](int t, int x) -> long {
     switch (t)
     {
@@ -1897,8 +2553,19 @@ VH_TARGET(fref_ops, 2,
         return ca(x);
       case T_LAMBDA:
         return lam_twin(x);
-      default:
+      case T_REF_LAMBDA:
         return rlam_twin(x);
+      case T_FN_CONV:
+      case T_FPTR_CONV:
+        return fn_conv(x);
+      case T_FN_CREF:
+        return fn_cref(x);
+      case T_FN_NOEXCEPT:
+        return fn_noexcept(x);
+      case T_FN_SHORT:
+        return fn_short(static_cast<short>(x));
+      default:
+        return static_cast<int>(fi_twin(x) % 1000);
     }
   };
   auto bind = [&](int t) -> FR {
@@ -1914,8 +2581,20 @@ VH_TARGET(fref_ops, 2,
         return FR(ca);
       case T_LAMBDA:
         return FR(lam);
-      default:
+      case T_REF_LAMBDA:
         return FR(rlam);
+      case T_FN_CONV:
+        return FR(fn_conv);
+      case T_FPTR_CONV:
+        return FR(fp_conv);
+      case T_FN_CREF:
+        return FR(fn_cref);
+      case T_FN_NOEXCEPT:
+        return FR(fp_noexcept);
+      case T_FN_SHORT:
+        return FR(fn_short);
+      default:
+        return FR(inner_named);
     }
   };
   struct Ref
@@ -1947,7 +2626,8 @@ VH_TARGET(fref_ops, 2,
         long want  = direct(t, x);
         d << "call ref" << r << "(" << tn[t] << (refs[r].is_copy ? ",copy" : "") << ")(" << x << ")";
         c.tag(std::string("call-") + tn[t] + (refs[r].is_copy ? "-via-copy" : ""));
-        if (refs[r].is_copy || ((t == T_FUNCTOR || t == T_LAMBDA || t == T_REF_LAMBDA) && calls[t] > 0))
+        if (refs[r].is_copy || ((t == T_FUNCTOR || t == T_LAMBDA || t == T_REF_LAMBDA || t == T_INNER_REF) && calls[t] > 0) ||
+            (t >= T_FN_CONV && t <= T_FN_SHORT))
           c.nontrivial = true;
         ++calls[t];
         VH_CHECK(c, got == want, d.str() << " returned " << got << ", direct invocation " << want);
@@ -2036,6 +2716,7 @@ VH_TARGET(fref_ops, 2,
                                                                                        << fa_twin.acc);
     VH_CHECK(c, ext == ext_twin, "captured-by-reference state after calls through function_ref " << ext << ", direct "
                                                                                                << ext_twin);
+    VH_CHECK(c, fi.acc == fi_twin.acc, "state behind the inner function_ref<int(long)> " << fi.acc << ", direct " << fi_twin.acc);
   }
   // the mutable lambdas: same next value on both (the reference calls the original object, not a copy)
   VH_CHECK(c, lam(1) == lam_twin(1), "mutable lambda state differs from its directly invoked twin");
@@ -2133,6 +2814,80 @@ std::string rs(const Tracked<S> &t)
 {
   return "T:" + std::to_string(t.val);
 }
+// renderings for the 16-alternative worlds: the tag names the alternative TYPE, so a value stored in (or
+// visited as) another arithmetic alternative shows even when the number is the same
+std::string rs(const bool &v)
+{
+  return v ? "b:1" : "b:0";
+}
+std::string rs(const long &v)
+{
+  return "i64:" + std::to_string(v);
+}
+std::string rs(const unsigned &v)
+{
+  return "u32:" + std::to_string(v);
+}
+std::string rs(const unsigned long &v)
+{
+  return "u64:" + std::to_string(v);
+}
+std::string rs(const unsigned char &v)
+{
+  return "u8:" + std::to_string(static_cast<int>(v));
+}
+std::string rs(const char *const &v)
+{
+  return std::string("cstr:") + (v ? v : "(null)");
+}
+std::string rs(const std::string_view &v)
+{
+  return "sv:" + vh::show(std::string(v));
+}
+std::string rs(const nostd::string_view &v)
+{
+  return "nsv:" + vh::show(std::string(v.data(), v.size()));
+}
+template <class T>
+std::string rs(const nostd::span<const T> &sp)
+{
+  std::string r = "span[" + std::to_string(sp.size()) + "]{";
+  for (const T &x : sp)
+    r += rs(x) + ",";
+  return r + "}";
+}
+// comparable placeholder alternatives (never chosen by a conversion: the constructor is explicit)
+template <int N>
+struct Dm
+{
+  int v;
+  explicit Dm(int x) : v(x) {}
+  friend bool operator==(const Dm &a, const Dm &b) { return a.v == b.v; }
+  friend bool operator!=(const Dm &a, const Dm &b) { return a.v != b.v; }
+  friend bool operator<(const Dm &a, const Dm &b) { return a.v < b.v; }
+  friend bool operator>(const Dm &a, const Dm &b) { return a.v > b.v; }
+  friend bool operator<=(const Dm &a, const Dm &b) { return a.v <= b.v; }
+  friend bool operator>=(const Dm &a, const Dm &b) { return a.v >= b.v; }
+};
+template <int N>
+std::string rs(const Dm<N> &d)
+{
+  return "D" + std::to_string(N) + ":" + std::to_string(d.v);
+}
+// storage referenced by pointer / view / span alternatives: one copy, used by both sides (the pointers stored
+// in the two variants are equal, so ordering comparisons of the const char* alternative agree by construction)
+const char kPool[]                                  = "a\0bb\0ccc";  // C strings at offsets 0, 2, 5
+const char kLit[4]                                  = "lit";
+const size_t kPoolOff[]                             = {0, 2, 5, 5};
+bool g_bools[2]                                     = {true, false};
+const std::vector<int32_t> kVecI32                  = {1, -2, 3};
+const std::vector<int64_t> kVecI64                  = {1L << 40, -5};
+const std::vector<uint32_t> kVecU32                 = {7u};
+const std::vector<double> kVecF64                   = {0.5, -1.5};
+const std::vector<nostd::string_view> kVecSv        = {"x", "yz"};
+const std::vector<uint64_t> kVecU64                 = {1UL << 63};
+const std::vector<uint8_t> kVecU8                   = {0, 255, 7};
+const std::string kStdString                        = std::string("st\0r", 4);
 
 struct NApi
 {
@@ -2289,11 +3044,36 @@ enum VKind
   V_VISIT2,
   V_COMPARE,
   V_DUP_EMPLACE,
+  V_C_PUT,
+  V_C_GET,
+  V_C_COMPARE,
+  V_C_TRANSFER,
+  V_VISIT_VB,
+  V_VISIT_CB,
+  V_A_PUT,
   V_NKINDS
 };
 const char *const kVNames[] = {"emplace_index", "emplace_type",  "assign_value", "construct_value", "copy_assign",
                                "move_assign",   "copy_construct", "move_construct", "swap",         "mutate",
-                               "get",           "visit2",         "compare",      "dup_emplace"};
+                               "get",           "visit2",         "compare",      "dup_emplace",
+                               "c_put",         "c_get",          "c_compare",    "c_transfer",      "visit_vb",
+                               "visit_cb",      "a_put"};
+static_assert(sizeof(kVNames) / sizeof(kVNames[0]) == V_NKINDS, "one name per variant operation");
+// arguments of a converting construction / assignment into the 16-alternative variant C; only argument types
+// for which the C++17 rule (plain overload resolution) and the P0608/P1957 rule select the same alternative
+const char *const kCArg[] = {"bool",   "char",          "short",      "int",         "unsigned", "long", "unsigned-long",
+                             "float",  "double",        "char-array", "const-char*", "string_view", "D7", "D8",
+                             "D9",     "D10",           "D11",        "D12",         "D14",      "D15"};
+constexpr int kNCArg      = 20;
+const int kCArgOfIndex[]  = {0, 3, 5, 4, 8, 10, 11, 12, 13, 14, 15, 16, 17, 6, 18, 19};  // an argument kind per alternative
+const size_t kCArgIndex[] = {0, 1, 1, 1, 3, 2, 13, 4, 4, 5, 5, 6, 7, 8, 9, 10, 11, 12, 14, 15};
+// arguments for the mirror of the API's AttributeValue (span alternatives: containers convert)
+const char *const kAArg[] = {"bool",          "int",           "long",          "unsigned",      "unsigned-long", "double",
+                             "char-array",    "const-char*",   "nostd::string_view", "std::string", "span<bool>", "vector<int32>",
+                             "vector<int64>", "vector<uint32>", "vector<double>", "vector<string_view>", "vector<uint64>",
+                             "vector<uint8>", "span<const int32>", "float",      "short"};
+constexpr int kNAArg      = 21;
+const size_t kAArgIndex[] = {0, 1, 2, 3, 13, 4, 5, 5, 6, 6, 7, 8, 9, 10, 11, 12, 14, 15, 8, 4, 1};
 
 struct VOp
 {
@@ -2303,6 +3083,8 @@ struct VOp
   int probe = 0;
   bool arm  = false;
   Val val;
+  int ck = 0;  // late draws for the 16-alternative worlds: argument kind ...
+  int cn = 0;  // ... and a small value
 };
 
 template <class A>
@@ -2315,6 +3097,203 @@ struct VWorld
   using B                = typename A::template variant<int, std::string, int>;  // repeated type: index API only
   V v[3];
   B w[2];
+  // the alternative list of the API's AttributeValue with the span alternatives replaced by comparable
+  // placeholders: indices 5..15, several arithmetic candidates for every conversion
+  using C = typename A::template variant<bool, int32_t, int64_t, uint32_t, double, const char *, std::string_view, Dm<7>,
+                                          Dm<8>, Dm<9>, Dm<10>, Dm<11>, Dm<12>, uint64_t, Dm<14>, Dm<15>>;
+  // exactly the alternative list of opentelemetry::common::AttributeValue (selection and visitation only:
+  // spans are not comparable)
+  using AV = typename A::template variant<bool, int32_t, int64_t, uint32_t, double, const char *, nostd::string_view,
+                                           nostd::span<const bool>, nostd::span<const int32_t>, nostd::span<const int64_t>,
+                                           nostd::span<const uint32_t>, nostd::span<const double>,
+                                           nostd::span<const nostd::string_view>, uint64_t, nostd::span<const uint64_t>,
+                                           nostd::span<const uint8_t>>;
+  C cv[2];
+  AV av;
+
+  template <size_t I, class Arg>
+  static void cput(C &dst, int how, Arg &&arg)
+  {
+    if (how == 0)
+      dst = std::forward<Arg>(arg);  // converting assignment: the alternative is selected by overload resolution
+    else if (how == 1)
+      dst = C(std::forward<Arg>(arg));  // converting construction
+    else
+      dst.template emplace<I>(std::forward<Arg>(arg));
+  }
+  static void c_put(C &dst, int kind, int how, int n)
+  {
+    switch (kind)
+    {
+      case 0:
+        cput<0>(dst, how, (n & 1) != 0);
+        break;
+      case 1:
+        cput<1>(dst, how, static_cast<char>('a' + n));
+        break;
+      case 2:
+        cput<1>(dst, how, static_cast<short>(n - 2));
+        break;
+      case 3:
+        cput<1>(dst, how, n - 1);
+        break;
+      case 4:
+        cput<3>(dst, how, static_cast<unsigned>(n));
+        break;
+      case 5:
+        cput<2>(dst, how, static_cast<long>(n) - 1);
+        break;
+      case 6:
+        cput<13>(dst, how, static_cast<unsigned long>(n));
+        break;
+      case 7:
+        cput<4>(dst, how, 0.5f * static_cast<float>(n));
+        break;
+      case 8:
+        cput<4>(dst, how, 0.25 * n);
+        break;
+      case 9:
+        cput<5>(dst, how, kLit);  // an array of const char, like a string literal
+        break;
+      case 10:
+        cput<5>(dst, how, static_cast<const char *>(kPool + kPoolOff[n & 3]));
+        break;
+      case 11:
+        cput<6>(dst, how, std::string_view(kPool, static_cast<size_t>(1 + 2 * (n & 3))));
+        break;
+      case 12:
+        cput<7>(dst, how, Dm<7>(n));
+        break;
+      case 13:
+        cput<8>(dst, how, Dm<8>(n));
+        break;
+      case 14:
+        cput<9>(dst, how, Dm<9>(n));
+        break;
+      case 15:
+        cput<10>(dst, how, Dm<10>(n));
+        break;
+      case 16:
+        cput<11>(dst, how, Dm<11>(n));
+        break;
+      case 17:
+        cput<12>(dst, how, Dm<12>(n));
+        break;
+      case 18:
+        cput<14>(dst, how, Dm<14>(n));
+        break;
+      default:
+        cput<15>(dst, how, Dm<15>(n));
+        break;
+    }
+  }
+  template <class Arg>
+  static void aput(AV &dst, int how, Arg &&arg)
+  {
+    if (how & 1)
+      dst = AV(std::forward<Arg>(arg));
+    else
+      dst = std::forward<Arg>(arg);
+  }
+  static void a_put(AV &dst, int kind, int how, int n)
+  {
+    switch (kind)
+    {
+      case 0:
+        aput(dst, how, (n & 1) != 0);
+        break;
+      case 1:
+        aput(dst, how, n - 1);
+        break;
+      case 2:
+        aput(dst, how, static_cast<long>(n) - 1);
+        break;
+      case 3:
+        aput(dst, how, static_cast<unsigned>(n));
+        break;
+      case 4:
+        aput(dst, how, static_cast<unsigned long>(n));
+        break;
+      case 5:
+        aput(dst, how, 0.25 * n);
+        break;
+      case 6:
+        aput(dst, how, kLit);
+        break;
+      case 7:
+        aput(dst, how, static_cast<const char *>(kPool + kPoolOff[n & 3]));
+        break;
+      case 8:
+        aput(dst, how, nostd::string_view(kPool, static_cast<size_t>(1 + 2 * (n & 3))));
+        break;
+      case 9:
+        aput(dst, how, kStdString);
+        break;
+      case 10:
+        aput(dst, how, nostd::span<bool>(g_bools, static_cast<size_t>(n & 1) + 1));
+        break;
+      case 11:
+        aput(dst, how, kVecI32);
+        break;
+      case 12:
+        aput(dst, how, kVecI64);
+        break;
+      case 13:
+        aput(dst, how, kVecU32);
+        break;
+      case 14:
+        aput(dst, how, kVecF64);
+        break;
+      case 15:
+        aput(dst, how, kVecSv);
+        break;
+      case 16:
+        aput(dst, how, kVecU64);
+        break;
+      case 17:
+        aput(dst, how, kVecU8);
+        break;
+      case 18:
+        aput(dst, how, nostd::span<const int32_t>(kVecI32.data(), static_cast<size_t>(n) % 4));
+        break;
+      case 19:
+        aput(dst, how, 0.5f * static_cast<float>(n));
+        break;
+      default:
+        aput(dst, how, static_cast<short>(n - 2));
+        break;
+    }
+  }
+  template <size_t I>
+  static void probe_cget(C &x, std::ostream &o)
+  {
+    try
+    {
+      o << "get<" << I << ">=" << rs(A::template get<I>(x));
+    }
+    catch (const typename A::bad_access &)
+    {
+      o << "get<" << I << ">=bad_access";
+    }
+    const C &cx = x;
+    using Alt   = std::remove_reference_t<decltype(A::template get<I>(x))>;
+    try
+    {
+      o << " get<T>=" << rs(A::template get_t<Alt>(cx));
+    }
+    catch (const typename A::bad_access &)
+    {
+      o << " get<T>=bad_access";
+    }
+    auto *p = A::template get_if<I>(&x);
+    auto *q = A::template get_if_t<Alt>(&cx);
+    o << " get_if=" << (p ? rs(*p) : "null") << "/" << (q ? rs(*q) : "null") << " holds=" << A::template holds<Alt>(cx);
+  }
+  template <size_t... I>
+  static void probe_cget_n(C &x, size_t n, std::ostream &o, std::index_sequence<I...>)
+  {
+    (void)std::initializer_list<int>{(n == I ? (probe_cget<I>(x, o), 0) : 0)...};
+  }
 
   template <size_t I>
   static void probe_get(V &x, std::ostream &o)
@@ -2554,6 +3533,65 @@ struct VWorld
             w[(op.i & 1) ^ 1] = x;  // an equal variant elsewhere (copy assignment of the repeated-type variant)
           break;
         }
+        case V_C_PUT:
+          c_put(cv[op.i & 1], op.ck % kNCArg, op.flag % 3, op.cn);
+          break;
+        case V_C_GET:
+          probe_cget_n(cv[op.i & 1], static_cast<size_t>(op.probe), o, std::make_index_sequence<16>());
+          o << " ";
+          break;
+        case V_C_COMPARE:
+        {
+          if (op.flag & 2)  // first give the other variant the same alternative (value cn): same-index comparison
+            c_put(cv[1], kCArgOfIndex[cv[0].index()], 2, op.cn);
+          const C &a = cv[0], &b = cv[1];
+          o << "ccmp=" << (a == b) << (a != b) << (a < b) << (a > b) << (a <= b) << (a >= b) << (b < a) << " ";
+          break;
+        }
+        case V_C_TRANSFER:
+        {
+          C &dst = cv[op.i & 1], &src = cv[(op.i & 1) ^ 1];
+          switch (op.flag)
+          {
+            case 0:
+              dst = src;
+              break;
+            case 1:
+            {
+              C t(src);
+              dst = std::move(t);
+              break;
+            }
+            case 2:
+              dst.swap(src);
+              break;
+            default:
+            {
+              C t(std::move(src));  // (every alternative is trivially movable: the source keeps its value)
+              dst = t;
+              break;
+            }
+          }
+          break;
+        }
+        case V_VISIT_VB:  // two variants, 6 x 4 index combinations
+          try
+          {
+            o << "visit_vb=" << A::visit([](const auto &a, const auto &b) { return rs(a) + "&" + rs(b); }, v[op.i], w[op.j & 1])
+              << " ";
+          }
+          catch (const typename A::bad_access &)
+          {
+            o << "visit_vb=bad_access ";
+          }
+          break;
+        case V_VISIT_CB:  // 17 x 4 index combinations
+          o << "visit_cb=" << A::visit([](const auto &a, const auto &b) { return rs(a) + "&" + rs(b); }, cv[op.i & 1], w[op.j & 1])
+            << " ";
+          break;
+        case V_A_PUT:
+          a_put(av, op.ck % kNAArg, op.flag, op.cn);
+          break;
       }
     }
     catch (const std::runtime_error &e)
@@ -2594,6 +3632,16 @@ struct VWorld
         << (A::template get_if<2>(&x) != nullptr) << "] ";
     }
     o << "w0?w1=" << (w[0] == w[1]) << (w[0] != w[1]) << (w[0] < w[1]) << (w[0] >= w[1]);
+    for (int i = 0; i < 2; ++i)
+    {
+      const C &x = cv[i];
+      o << " c" << i << "=#" << x.index() << ":" << A::visit([](const auto &a) { return rs(a); }, x) << "["
+        << A::template holds<bool>(x) << A::template holds<int32_t>(x) << A::template holds<int64_t>(x)
+        << A::template holds<uint32_t>(x) << A::template holds<double>(x) << A::template holds<const char *>(x)
+        << A::template holds<std::string_view>(x) << A::template holds<uint64_t>(x) << A::template holds<Dm<7>>(x)
+        << A::template holds<Dm<12>>(x) << A::template holds<Dm<15>>(x) << "]";
+    }
+    o << " av=#" << av.index() << ":" << A::visit([](const auto &a) { return rs(a); }, av);
     o << " liveT=" << g_vreg[S].live;
   }
 };
@@ -2621,17 +3669,29 @@ VH_TARGET(var_ops, 3,
       wn.put(wn.v[1], b, 0), ws.put(ws.v[1], b, 0);
       wn.put(wn.v[2], t, 0), ws.put(ws.v[2], t, 0);
       c.note("start " + a.show() + " " + b.show() + " " + t.show() + "\n");
+      // the 16-alternative variants start on alternatives derived from the same draws (no extra bytes): the
+      // first operation already meets an active index >= 5 in most cases
+      static const int kStart[9] = {0, 6, 10, 11, 12, 15, 19, 5, 8};
+      int k0 = kStart[(a.iv * 3 + t.iv) % 9], k1 = kStart[(t.iv * 3 + a.iv + 4) % 9];
+      VWorld<NApi>::c_put(wn.cv[0], k0, 2, a.iv), VWorld<SApi>::c_put(ws.cv[0], k0, 2, a.iv);
+      VWorld<NApi>::c_put(wn.cv[1], k1, 2, t.iv), VWorld<SApi>::c_put(ws.cv[1], k1, 2, t.iv);
+      VWorld<NApi>::a_put(wn.av, 10 + a.iv + 3 * t.iv, 1, a.iv), VWorld<SApi>::a_put(ws.av, 10 + a.iv + 3 * t.iv, 1, a.iv);
     }
     unsigned nops = 1 + rd.below(24);
     for (unsigned step = 0; step < nops && (step == 0 || !rd.exhausted()); ++step)
     {
       VOp op;
-      op.kind  = static_cast<int>(rd.weighted({10, 6, 8, 4, 8, 6, 4, 4, 6, 4, 8, 6, 10, 3}));
+      op.kind  = static_cast<int>(rd.weighted({10, 6, 8, 4, 8, 6, 4, 4, 6, 4, 8, 6, 10, 3, 14, 5, 5, 3, 4, 3, 8}));
       op.i     = static_cast<int>(rd.below(3));
       op.j     = static_cast<int>(rd.below(3));
       op.flag  = static_cast<int>(rd.below(4));
       op.probe = static_cast<int>(rd.below(5));
       op.val   = gen_val(rd);
+      if (op.kind >= V_C_PUT)
+      {
+        op.ck = static_cast<int>(rd.below(kNCArg * kNAArg));
+        op.cn = static_cast<int>(rd.below(4));
+      }
       if ((op.kind == V_EMPLACE_INDEX || op.kind == V_EMPLACE_TYPE) && rd.chance(15))
       {
         op.val.alt = 3;  // the throwing construction: the way into the valueless state
@@ -2647,6 +3707,12 @@ VH_TARGET(var_ops, 3,
             op.j = q;
           break;
         }
+      if (op.kind >= V_C_PUT && op.kind != V_VISIT_VB)
+      {
+        op.i &= 1;
+        if (op.kind == V_C_GET)  // the active alternative or any of the 16
+          op.probe = (op.flag & 1) ? static_cast<int>(ws.cv[op.i].index()) : op.ck % 16;
+      }
       if (op.kind == V_MOVE_ASSIGN && op.i == op.j)
         op.j = (op.i + 1) % 3;  // self-move of the contained value is unspecified for library types
       if (op.kind == V_DUP_EMPLACE && op.val.alt != 1 && op.val.alt != 2)
@@ -2663,7 +3729,12 @@ VH_TARGET(var_ops, 3,
       bool i_heavy = si.index() == 2 || si.index() == 3;
       std::ostringstream d;
       d << kVNames[op.kind] << "(i=" << op.i << ",j=" << op.j << ",f=" << op.flag << ",p=" << op.probe
-        << (op.arm ? ",copy-throws" : "") << "," << op.val.show() << ")";
+        << (op.arm ? ",copy-throws" : "") << "," << op.val.show();
+      if (op.kind == V_C_PUT)
+        d << "," << kCArg[op.ck % kNCArg] << ":" << op.cn;
+      if (op.kind == V_A_PUT)
+        d << "," << kAArg[op.ck % kNAArg] << ":" << op.cn;
+      d << ")";
       c.note(d.str() + "\n");
       bool throws = op.val.alt == 3 && op.val.iv < 0;
       switch (op.kind)
@@ -2727,6 +3798,53 @@ VH_TARGET(var_ops, 3,
         case V_MUTATE:
           c.tag(si.valueless_by_exception() ? "mutate-valueless-skipped" : "mutate");
           break;
+        case V_C_PUT:
+        {
+          static const char *const how[] = {"-converting-assignment", "-converting-construction", "-emplace<I>"};
+          c.tag(std::string("c_put-") + kCArg[op.ck % kNCArg]);
+          c.tag(std::string("c_put") + how[op.flag % 3] + (kCArgIndex[op.ck % kNCArg] >= 5 ? "-index>=5" : "-index<5"));
+          c.nontrivial = c.nontrivial || op.flag % 3 != 2 || kCArgIndex[op.ck % kNCArg] >= 5;
+          break;
+        }
+        case V_C_GET:
+        {
+          size_t act = ws.cv[op.i].index();
+          c.tag(std::string("c_get-") + (static_cast<size_t>(op.probe) == act ? "active" : "inactive") +
+                (act >= 5 ? "-active-index>=5" : "-active-index<5"));
+          c.nontrivial = c.nontrivial || act >= 5;
+          break;
+        }
+        case V_C_COMPARE:
+        {
+          size_t a = ws.cv[0].index(), b = (op.flag & 2) ? a : ws.cv[1].index();
+          c.tag(std::string("c_compare") + (a == b ? "-same-alt" : "-other-alt") + (a >= 5 || b >= 5 ? "-index>=5" : "-index<5"));
+          c.nontrivial = c.nontrivial || a == b || a >= 5 || b >= 5;
+          break;
+        }
+        case V_C_TRANSFER:
+        {
+          static const char *const how[] = {"copy-assign", "copy-construct", "swap", "move-construct"};
+          size_t a = ws.cv[op.i].index(), b = ws.cv[op.i ^ 1].index();
+          c.tag(std::string("c_transfer-") + how[op.flag] + (a == b ? "-same-alt" : "-other-alt") +
+                (a >= 5 || b >= 5 ? "-index>=5" : "-index<5"));
+          c.nontrivial = c.nontrivial || a >= 5 || b >= 5;
+          break;
+        }
+        case V_VISIT_VB:
+        {
+          size_t flat = si.valueless_by_exception() ? 99 : si.index() * 3 + ws.w[op.j & 1].index();
+          c.tag(si.valueless_by_exception() ? "visit_vb-valueless" : flat >= 5 ? "visit_vb-pair-index>=5" : "visit_vb-pair-index<5");
+          c.nontrivial = true;
+          break;
+        }
+        case V_VISIT_CB:
+          c.tag(ws.cv[op.i].index() >= 5 ? "visit_cb-index>=5" : "visit_cb-index<5");
+          c.nontrivial = true;
+          break;
+        case V_A_PUT:
+          c.tag(std::string("a_put-") + kAArg[op.ck % kNAArg] + ((op.flag & 1) ? "-construction" : "-assignment"));
+          c.nontrivial = c.nontrivial || kAArgIndex[op.ck % kNAArg] >= 5;
+          break;
         default:
           c.tag(kVNames[op.kind]);
           break;
@@ -2738,6 +3856,14 @@ VH_TARGET(var_ops, 3,
       ws.observe(os);
       VH_CHECK(c, on.str() == os.str(), "after step " << step << " " << d.str() << "\n  nostd: " << on.str()
                                                       << "\n  std:   " << os.str());
+      // the reference selects the alternative the tables above name (a disagreement is a harness error: the
+      // argument list would no longer be one both selection rules agree on)
+      if (op.kind == V_C_PUT)
+        VH_CHECK(c, ws.cv[op.i].index() == kCArgIndex[op.ck % kNCArg],
+                 "std side (harness error): " << d.str() << " selected alternative " << ws.cv[op.i].index());
+      if (op.kind == V_A_PUT)
+        VH_CHECK(c, ws.av.index() == kAArgIndex[op.ck % kNAArg],
+                 "std side (harness error): " << d.str() << " selected alternative " << ws.av.index());
       // hashing consistent with equality (nostd side; the hash values themselves are not compared)
       {
         using NB = VWorld<NApi>::B;
